@@ -1,1 +1,9 @@
 -- proof library root
+import TexSoupProofs.TokLemmas
+import TexSoupProofs.Properties.C19
+import TexSoupProofs.Properties.TokFacts
+import TexSoupProofs.Reader.Basic
+import TexSoupProofs.Reader.Tolerant
+import TexSoupProofs.BufSpec
+import TexSoupProofs.BufLemmas
+import TexSoupProofs.Properties.C20
